@@ -49,18 +49,56 @@ def encPrim : Prim → Value → Except EncErr Doc
 def countSet (ms : List (Bytes × Value)) (members : List (Bytes × Ty)) : Nat :=
   (members.filter (fun m => (Value.lookup ms m.1).isSome)).length
 
-mutual
-/-- `MarshalRestLi` of a value of type `ty` under writer scope `scope` -/
+/-- visit a list of keyed values with an element encoder; an entry whose key is excluded is
+marshalled all the same (into the no-op writer, so its errors still surface) but not emitted -/
+def encodeKeyed (excluded : Bytes → Bool) (enc : Bytes → Value → Except EncErr Doc) :
+    List (Bytes × Value) → Except EncErr (List (Bytes × Doc))
+  | [] => .ok []
+  | (k, v) :: rest => do
+    let d ← enc k v
+    let more ← encodeKeyed excluded enc rest
+    if excluded k then pure more else pure ((k, d) :: more)
+
+def encodeList (enc : Value → Except EncErr Doc) : List Value → Except EncErr (List Doc)
+  | [] => .ok []
+  | v :: vs => do
+    let d ← enc v
+    let ds ← encodeList enc vs
+    pure (d :: ds)
+
+/-- the (name, type, value) triples of the set fields of a record, in visiting order; `none` when
+a required field holds no value (impossible for a Go struct) -/
+def setFields : List Field → List (Bytes × Value) → Option (List (Bytes × Ty × Value))
+  | [], _ => some []
+  | f :: rest, fs =>
+    match Value.lookup fs f.name with
+    | none => if f.optOrDefault then setFields rest fs else none
+    | some v => (setFields rest fs).map ((f.name, f.ty, v) :: ·)
+
+def setMembers (members : List (Bytes × Ty)) (ms : List (Bytes × Value)) : List (Bytes × Ty × Value) :=
+  members.filterMap (fun m => (Value.lookup ms m.1).map (fun v => (m.1, m.2, v)))
+
+def encodeTyped (excluded : Bytes → Bool) (enc : Bytes → Ty → Value → Except EncErr Doc) :
+    List (Bytes × Ty × Value) → Except EncErr (List (Bytes × Doc))
+  | [] => .ok []
+  | (k, t, v) :: rest => do
+    let d ← enc k t v
+    let more ← encodeTyped excluded enc rest
+    if excluded k then pure more else pure ((k, d) :: more)
+
+/-- `MarshalRestLi` of a value of type `ty` under writer scope `scope`; `fuel` bounds the nesting
+depth only -/
 def encode (c : EncCfg) : Nat → List Bytes → Ty → Value → Except EncErr Doc
   | 0, _, _, _ => .error .fuel
   | fuel + 1, scope, ty, v =>
     match ty, v with
     | .prim p, v => encPrim p v
     | .arr t, .arr vs => do
-      let items ← encodeItems c fuel (scope ++ [Gen.wildCard]) t vs
+      let items ← encodeList (encode c fuel (scope ++ [Gen.wildCard]) t) vs
       pure (.arr items)
     | .map t, .map es => do
-      let kvs ← encodeEntries c fuel scope t es
+      let kvs ← encodeKeyed (fun k => c.excl.matchesB (scope ++ [k]))
+        (fun k v => encode c fuel (scope ++ [k]) t v) es
       pure (c.finish kvs)
     | .ref n, v =>
       match c.env.find n, v with
@@ -72,61 +110,23 @@ def encode (c : EncCfg) : Nat → List Bytes → Ty → Value → Except EncErr 
           | none => .error .enum
         else .error .enum
       | some (.fixed size), .fixed b => if b.length = size then .ok (.bytes b) else .error .illTyped
-      | some (.record _ _), .record fs => do
-        let kvs ← encodeFields c fuel scope (allFields c.env (includeFuel c.env) n) fs
-        pure (c.finish kvs)
+      | some (.record _ _), .record fs =>
+        match setFields (allFields c.env (includeFuel c.env) n) fs with
+        | none => .error .illTyped       -- a required Go field always holds a value
+        | some triples => do
+          let kvs ← encodeTyped (fun k => c.excl.matchesB (scope ++ [k]))
+            (fun k t v => encode c fuel (scope ++ [k]) t v) triples
+          pure (c.finish kvs)
       | some (.union hasNull members), .union ms =>
         -- `validateAllMembers`: the members are visited in declaration order; a second set
         -- member, or none for a non-nullable union, is an error
         if countSet ms members > 1 then .error .union
         else if countSet ms members = 0 && !hasNull then .error .union
         else do
-          let kvs ← encodeMembers c fuel scope members ms
+          let kvs ← encodeTyped (fun k => c.excl.matchesB (scope ++ [k]))
+            (fun k t v => encode c fuel (scope ++ [k]) t v) (setMembers members ms)
           pure (c.finish kvs)
       | _, _ => .error .illTyped
     | _, _ => .error .illTyped
-/-- record fields in visiting order; an optional/defaulted field is written iff set -/
-def encodeFields (c : EncCfg) : Nat → List Bytes → List Field → List (Bytes × Value) →
-    Except EncErr (List (Bytes × Doc))
-  | 0, _, _, _ => .error .fuel
-  | _ + 1, _, [], _ => .ok []
-  | fuel + 1, scope, f :: rest, fs =>
-    match Value.lookup fs f.name with
-    | none =>
-      if f.optOrDefault then encodeFields c fuel scope rest fs
-      else .error .illTyped       -- a required Go field always holds a value
-    | some v => do
-      -- the value is marshalled even when the key is excluded (into the no-op writer), so its
-      -- errors still surface
-      let d ← encode c fuel (scope ++ [f.name]) f.ty v
-      let more ← encodeFields c fuel scope rest fs
-      if c.excl.matchesB (scope ++ [f.name]) then pure more else pure ((f.name, d) :: more)
-def encodeMembers (c : EncCfg) : Nat → List Bytes → List (Bytes × Ty) → List (Bytes × Value) →
-    Except EncErr (List (Bytes × Doc))
-  | 0, _, _, _ => .error .fuel
-  | _ + 1, _, [], _ => .ok []
-  | fuel + 1, scope, m :: rest, ms =>
-    match Value.lookup ms m.1 with
-    | none => encodeMembers c fuel scope rest ms
-    | some v => do
-      let d ← encode c fuel (scope ++ [m.1]) m.2 v
-      let more ← encodeMembers c fuel scope rest ms
-      if c.excl.matchesB (scope ++ [m.1]) then pure more else pure ((m.1, d) :: more)
-def encodeItems (c : EncCfg) : Nat → List Bytes → Ty → List Value → Except EncErr (List Doc)
-  | 0, _, _, _ => .error .fuel
-  | _ + 1, _, _, [] => .ok []
-  | fuel + 1, scope, t, v :: vs => do
-    let d ← encode c fuel scope t v
-    let ds ← encodeItems c fuel scope t vs
-    pure (d :: ds)
-def encodeEntries (c : EncCfg) : Nat → List Bytes → Ty → List (Bytes × Value) →
-    Except EncErr (List (Bytes × Doc))
-  | 0, _, _, _ => .error .fuel
-  | _ + 1, _, _, [] => .ok []
-  | fuel + 1, scope, t, (k, v) :: es => do
-    let d ← encode c fuel (scope ++ [k]) t v
-    let more ← encodeEntries c fuel scope t es
-    if c.excl.matchesB (scope ++ [k]) then pure more else pure ((k, d) :: more)
-end
 
 end Restli.Codec
